@@ -193,6 +193,10 @@ func main() {
 	}
 	sum.Stream = *stream
 	sum.Seed = *seed
+	// findings recorded by table builders that have no Summary at hand (keyFloatText)
+	for _, f := range globalFindings {
+		sum.finding(f)
+	}
 	if sum.Findings == nil {
 		sum.Findings = []Finding{}
 	}
@@ -236,3 +240,6 @@ func randIdent(rng *rand.Rand) string {
 	}
 	return b.String()
 }
+
+// globalFindings: see main.
+var globalFindings []Finding
